@@ -505,7 +505,10 @@ func TestVerifC02Tree(t *testing.T) {
 	}
 	// the scale configurations additionally let the top-level sibling C hold on to its minimum (non-lending), so that
 	// the parent P gets less than the cluster total without any pod
-	treeScale := map[string][]c01QSpec{"P": tree["P"], "A": tree["A"], "B": tree["B"],
+	// ... and let B be re-parented to the root and back (the scaling manager keeps a children's-min sum per parent that
+	// must follow the move: seed C02-4)
+	treeScale := map[string][]c01QSpec{"P": tree["P"], "A": tree["A"],
+		"B": {tree["B"][0], tree["B"][1], {"B", root, false, true, c01Vec{8, 4}, c01Vec{1, 1}}},
 		"C": {tree["C"][0], {"C", root, false, false, c01Vec{8, 8}, c01Vec{2, 2}}}}
 	name := func(q c01QSpec, vi int) string {
 		return fmt.Sprintf("quota(%s:=v%d{parent=%s,isParent=%v,lend=%v,max=%v,min=%v})", q.Name, vi, q.Parent, q.IsParent, q.Lend, q.Max, q.Min)
